@@ -63,3 +63,28 @@ Theorem C10_engine_no_page_is_lost : forall st : Engine.db, EngineNoLeak.db_exac
     ((2 <= x)%N /\ (x < Engine.d_np st)%N) /\ ~ In x (EngineRefines.live_of st (EngineOwnDefs.Rof st)).
 Proof. exact EngineNoLeak.flids_exact. Qed.
 Print Assumptions C10_engine_no_page_is_lost.
+
+(* ---- with read transactions (EngineR.v): pages freed while a reader is open stay pending, never lost; as soon as no reader is
+   open the next writer releases EVERY pending batch into its free list; and along every history with readers the free-list
+   record stays exactly the set of unused pages ---- *)
+From Jamm Require PL EngineR EngineReadersInv EngineReaders EngineReadersExact.
+Theorem C10_engine_reuse_when_no_reader : forall (k : N) (cur : Engine.db) (ops : list Engine.op) (ord : list Bytes.bytes),
+  EngineReadersInv.db_okr cur ->
+  EngineR.bound_k k (cur, nil) = (Engine.d_tx cur + 1)%N /\
+  EngineR.step_k k (cur, nil) (EngineR.Tx ops ord) =
+    Engine.bind (Engine.run_tx cur ops ord) (fun st' : Engine.db => Engine.Ok (st', nil)) /\
+  EngineR.begin_w_r cur (EngineR.bound_k k (cur, nil)) = Engine.begin_w cur /\
+  Engine.pending (Engine.begin_w cur) = nil /\
+  (forall x : N, In x (Engine.d_free cur) \/ In x (PL.pend_all (Engine.d_pending cur)) ->
+     In x (Engine.free (Engine.begin_w cur))).
+Proof. exact EngineReaders.reuse_when_no_reader. Qed.
+Print Assumptions C10_engine_reuse_when_no_reader.
+
+Theorem C10_engine_no_page_is_lost_with_readers : forall (k P : N) (es : list EngineR.hstep) (h' : EngineR.hstate),
+  (k <= 1)%N -> (0 < P)%N -> EngineReaders.hist_ok k (Engine.init_db P, nil) es ->
+  EngineR.run_hist_k k (Engine.init_db P, nil) es = Engine.Ok h' ->
+  EngineNoLeak.db_exact_rec (fst h') /\
+  (forall x : N, In x (Engine.d_flids (fst h')) <->
+     ((2 <= x)%N /\ (x < Engine.d_np (fst h'))%N) /\ ~ In x (EngineRefines.live_of (fst h') (EngineOwnDefs.Rof (fst h')))).
+Proof. exact EngineReadersExact.hist_exact_init. Qed.
+Print Assumptions C10_engine_no_page_is_lost_with_readers.
